@@ -410,7 +410,23 @@ def contains_term(ctx, item, container):
                                      % pytype_of(item).__name__))
         return z3.Contains(str_term(container), str_term(item))
     if isinstance(container, (set, frozenset, dict)):
-        raise Unsupported("membership in a set/dict with symbolic values")
+        keys = list(container)
+        if contains_sym(keys):
+            raise Unsupported("membership in a set/dict with symbolic members")
+        if isinstance(item, SStr):
+            parts = [item.term == z3.StringVal(k) for k in keys if isinstance(k, str)]
+            return z3.Or(*parts) if parts else False
+        if isinstance(item, (SInt, SReal, SBool)):
+            parts = []
+            for k in keys:
+                if isinstance(k, (int, float)) and not (isinstance(k, float) and k != k):
+                    t = num_compare(ctx, "Eq", item, k)
+                    if t is True:
+                        return True
+                    if t is not False:
+                        parts.append(t)
+            return z3.Or(*parts) if parts else False
+        raise Unsupported("membership of %s in a set/dict" % type(item).__name__)
     if isinstance(container, Sym) or container is None or isinstance(container, (int, float)):
         raise SymRaise(TypeError("argument of type '%s' is not iterable"
                                  % pytype_of(container).__name__))
